@@ -284,6 +284,9 @@ def stub_svd(a, full_matrices=True, compute_uv=True, **kw):
         eng.assume(sv[i] >= 0, tag='svd:s>=0')
         if i + 1 < k:
             eng.assume(sv[i] >= sv[i + 1], tag='svd:order')
+            # consequence of s_i >= s_{i+1} >= 0 (monotonicity of squaring on the non-negative reals), registered so that
+            # the path solver may multiply it by even-power monomials: s_{i+1}^2 - s_i^2 <= 0
+            eng.add_ineq_lemma(psub(pmul(sv[i + 1].t, sv[i + 1].t), pmul(sv[i].t, sv[i].t)))
         for j in range(i, k):
             tu = Sym(); tv = Sym()
             for l in range(m):
